@@ -202,6 +202,20 @@ def _count_reversals(t, root_txt):
 def r3(ctx):
     m = ctx.model
     ci = m.cls('CompoundPixelRegion')
+    # the hole path depicts a compound only when it is an annulus: same centre and xor; anything else must be refused
+    g = method_or_fail(ctx, ci, 'as_artist')
+    ev0 = evaluator(ctx)
+    out = ev0.run(g, [ev0.symbolic_instance(ci)], {'origin': Tup((sym('ox'), sym('oy')))})
+    want = ('((attr:center(self.region1) == attr:center(self.region2)) and (attr:_operator(self) is operator.xor))',
+            '((attr:_operator(self) is operator.xor) and (attr:center(self.region1) == attr:center(self.region2)))')
+    rets = [show(ev0.conj(pc), 400) for pc, v in out.returns if 'PathPatch' in show(v, 200)]
+    refs = [show(ev0.conj(pc), 400) for pc, n, _ in out.raises]
+    if rets and all(r in want for r in rets) and refs and all(r in tuple('not ' + w for w in want) for r in refs):
+        ctx.ok('CompoundPixelRegion.as_artist:guard', 'a patch only for same-centre xor compounds; every other compound is refused')
+    else:
+        ctx.bad('CompoundPixelRegion.as_artist', 'annulus-guard',
+                f'the annulus patch is built under `{rets[:1]}` and refused under `{refs[:1]}`; it depicts the compound only when '
+                'the operands share their centre and the operator is xor', g.loc())
     f = method_or_fail(ctx, ci, '_make_annulus_path')
     ev = evaluator(ctx)
     pi_, po = Obj('Patch', {}, 'patch_inner'), Obj('Patch', {}, 'patch_outer')
@@ -377,5 +391,5 @@ RULES = [
     RuleDef('R2', 'caller kwargs override the visual defaults', r2, 8),
     RuleDef('R2b', 'caller keyword vs renamed stored key (matplotlib alias table)', r2b, 3),
     RuleDef('R2c', 'every valid visual key is accepted by the artist or dropped', r2c, 3),
-    RuleDef('R3', 'annulus path: hole orientation, roles, delegation', r3, 3),
+    RuleDef('R3', 'annulus path: guard, hole orientation, roles, delegation', r3, 4),
 ]
